@@ -144,10 +144,10 @@ fn vm_specs() -> Vec<PropSpec> {
         id,
         legs: match id {
             "C01" => vec![vm_leg(id, 600_000, 20_000_000), Leg::Fuzz { target: "prog", runs: 20_000 }],
-            "C06" => vec![vm_leg(id, 1_500_000, 40_000_000)],
+            "C06" => vec![vm_leg(id, 1_500_000, 150_000_000)],
             "C16" => vec![vm_leg(id, 1_200_000, 30_000_000), Leg::Fuzz { target: "prog", runs: 20_000 }],
-            "C15" => vec![vm_leg(id, 2_000_000, 60_000_000), timers_leg("C15", 1_000_000, 30_000_000)],
-            _ => vec![vm_leg(id, 3_000_000, 80_000_000)],
+            "C15" => vec![vm_leg(id, 2_000_000, 200_000_000), timers_leg("C15", 1_000_000, 30_000_000)],
+            _ => vec![vm_leg(id, 3_000_000, 300_000_000)],
         },
         rule,
         assumptions: A_VM.to_vec(),
